@@ -19,7 +19,7 @@ Open Scope N_scope.
 Theorem c02_binding : forall expand kc l st now lim q u c,
   s_keys st = Seal.inject_all kc (Seal.sealed_init kc) l ->
   certgen expand st now lim q = Issued u c ->
-  (exists level, proves now q u level) /\
+  (exists level, proves st now q u level) /\
   d_names c = [s_name st u] /\ q_target q = s_name st u /\
   (exists ed, q_key q = Some (d_key c, ed)) /\
   d_user_type c = true /\ d_is_ca c = false /\
@@ -46,7 +46,7 @@ Print Assumptions c02_published_for_every_initial_list.
 
 (* a request made on behalf of any other name is refused (403 when it would otherwise qualify) *)
 Theorem c02_other_user_refused : forall expand st now lim q u level iat,
-  check_auth now lim bAny (auth_request q) = Admit u level iat ->
+  check_auth now lim bAny (auth_request st q) = Admit u level iat ->
   s_name st u <> q_target q ->
   (exists code, certgen expand st now lim q = Refused code /\ 400 <= code) /\
   (s_sealed st = false -> qualifies (s_cfg st) level -> certgen expand st now lim q = Refused 403).
@@ -109,7 +109,7 @@ Example c02_published_example :
   let r := {| Seal.i_tls := true; Seal.i_chain := true; Seal.i_field := Some key_pass |} in
   let ks := Seal.inject_all kc (Seal.sealed_init kc) [r] in
   Seal.pubkeys ks = [9; 1; 9; 1; 2] /\ Seal.ca_ders ks = [2; 1] /\
-  match certgen no_expand {| s_keys := ks; s_cfg := [sU2F]; s_name := case_name; s_host := []; s_templates := [];
+  match certgen no_expand {| s_keys := ks; s_cfg := [sU2F]; s_name := case_name; s_host := case_host; s_addr := s_port443; s_templates := [];
                              s_realm := None; s_groups := fun _ => Some []; s_methods := fun _ => Some [] |}
                 0%Z true (case_req (nth 8 shapes default_shape) 4 0) with
   | Issued u d => d_signer d = 2 /\ u = 1
